@@ -236,6 +236,48 @@ where
     }
 }
 
+/// inputs beyond 2^16 octets: a 70000-octet header, a 65536-octet message; signing works and the LAST octet
+/// of each stays bound
+pub fn c02_large_octets<CS: BbsCiphersuite>(h: &mut H)
+where
+    CS::Expander: for<'a> ExpandMsg<'a>,
+{
+    let (sk, pk) = rand_keypair::<CS>(h);
+    let msgs = distinct_msgs(h, 2);
+    let big_hdr = h.rng.bytes(70000);
+    let s = sign::<CS>(h, &sk, &pk, Some(&big_hdr), Some(&msgs));
+    let sid = h.last();
+    h.stat("C02.large_octets");
+    h.expect(s.is_ok(), "C01.sign_large_header", "sign failed with a 70000-octet header", &[sid]);
+    if let Some(s) = s.ok() {
+        let sig = s.bbsPlusSignature().clone();
+        let v = verify::<CS>(h, &pk, &sig, Some(&big_hdr), Some(&msgs));
+        h.expect(v.is_ok(), "C01.verify_large_header", "signature with a 70000-octet header does not verify", &[sid, h.last()]);
+        for pos in [69999usize, 65536, 65535, 65400, 0] {
+            let mut h2 = big_hdr.clone();
+            h2[pos] ^= 1;
+            let v = verify::<CS>(h, &pk, &sig, Some(&h2), Some(&msgs));
+            h.expect(!v.is_ok(), "C02.large_header_tail", &format!("a signature with a 70000-octet header verifies with header octet {} altered", pos), &[sid, h.last()]);
+        }
+        let v = verify::<CS>(h, &pk, &sig, Some(&big_hdr[..69999]), Some(&msgs));
+        h.expect(!v.is_ok(), "C02.large_header_truncated", "a signature with a 70000-octet header verifies with the header truncated by one octet", &[sid, h.last()]);
+    }
+    let big_msg = h.rng.bytes(65536);
+    let m2 = vec![msgs[0].clone(), big_msg.clone()];
+    let s = sign::<CS>(h, &sk, &pk, None, Some(&m2));
+    let sid = h.last();
+    h.expect(s.is_ok(), "C01.sign_large_message", "sign failed with a 65536-octet message", &[sid]);
+    if let Some(s) = s.ok() {
+        let sig = s.bbsPlusSignature().clone();
+        let v = verify::<CS>(h, &pk, &sig, None, Some(&m2));
+        h.expect(v.is_ok(), "C01.verify_large_message", "signature over a 65536-octet message does not verify", &[sid, h.last()]);
+        let mut m3 = m2.clone();
+        m3[1][65535] ^= 0x80;
+        let v = verify::<CS>(h, &pk, &sig, None, Some(&m3));
+        h.expect(!v.is_ok(), "C02.large_message_tail", "signature over a 65536-octet message verifies with its last octet altered", &[sid, h.last()]);
+    }
+}
+
 /// message lists with REPEATED values: every position stays bound to its own value (a tampered list that
 /// only re-arranges or substitutes values already present in the list must be rejected)
 pub fn c02_repeats<CS: BbsCiphersuite>(h: &mut H)
@@ -439,10 +481,45 @@ pub fn interleave_dispatch(h: &mut H, prop: &str) {
     }
 }
 
+/// positions that no longer fit a byte: a 258-message signature updated at 255, 256, 257
+fn c12_large_positions<CS: BbsCiphersuite>(h: &mut H)
+where
+    CS::Expander: for<'a> ExpandMsg<'a>,
+{
+    let l = 258usize;
+    let (sk, pk) = rand_keypair::<CS>(h);
+    let mut cur = distinct_msgs(h, l);
+    let s0 = match sign::<CS>(h, &sk, &pk, None, Some(&cur)).ok() { Some(s) => s, None => return };
+    let mut sig = s0.bbsPlusSignature().clone();
+    for i in [255usize, 256, 257, 1] {
+        let newv = rand_msg(h);
+        let u = update::<CS>(h, &sig, &sk, &cur[i], &newv, i, l);
+        let uid = h.last();
+        h.stat("C12.large_position");
+        match u.ok() {
+            None => { h.expect(false, "C12.update", "update_signature failed on a valid update at a position >= 255", &[uid]); return; }
+            Some(ns) => {
+                let nsig = ns.bbsPlusSignature().clone();
+                let mut next = cur.clone();
+                next[i] = newv;
+                let v = verify::<CS>(h, &pk, &nsig, None, Some(&next));
+                h.expect(v.is_ok(), "C12.verify_current", &format!("signature updated at position {} of {} does not verify for the new vector", i, l), &[uid, h.last()]);
+                let a_ref = reference_A::<CS>(&sk.0, &pk, None, &next, nsig.e);
+                h.expect(a_ref == Some(nsig.A), "C12.equals_fresh", "updated A differs from B(msgs)/(sk+e)", &[uid]);
+                let v = verify::<CS>(h, &pk, &nsig, None, Some(&cur));
+                h.expect(!v.is_ok(), "C12.old_vector", "updated signature verifies for the previous vector", &[uid, h.last()]);
+                cur = next;
+                sig = nsig;
+            }
+        }
+    }
+}
+
 pub fn c12<CS: BbsCiphersuite>(h: &mut H)
 where
     CS::Expander: for<'a> ExpandMsg<'a>,
 {
+    c12_large_positions::<CS>(h);
     let thorough = h.tier_thorough;
     let ls: &[usize] = if thorough { &[1, 2, 3, 5, 10] } else { &[1, 2, 3, 5] };
     let chains = if thorough { 12 } else { 2 };
